@@ -244,6 +244,25 @@ theorem C19_sequence_partial (J : JsonTextLaws) (L : AvroLaws) (F : FloatLaws) (
                 simp )
         cases this
 
+/-- End to end from a fresh writer: for records of one mappable descriptor, as long as the caller stops at the first
+    refusal, a standard reader finds in the closed file exactly the accepted records, in order, as stored values. -/
+theorem C19_file_contents (J : JsonTextLaws) (L : AvroLaws) (F : FloatLaws) (d : Desc) (s : Schema) (recs : List Rec)
+    (hs : descriptorToSchema J d = .ok s) (hdesc : ∀ r ∈ recs, r.desc = d)
+    (hstop : ∀ e ∈ (writeAll J L F .init recs).2.dropLast, e = none) :
+    fileRows L (writeAll J L F .init recs).1 = some (accepted F recs (writeAll J L F .init recs).2) := by
+  cases recs with
+  | nil => rfl
+  | cons r rs =>
+    have hr : r.desc = d := hdesc r List.mem_cons_self
+    have hs' : descriptorToSchema J r.desc = .ok s := by rw [hr]; exact hs
+    obtain ⟨hw, hclean⟩ := C19_first_write J L F r s hs'
+    have hall : writeAll J L F .init (r :: rs) = writeAll J L F ⟨some r.desc, some s.fields, [], 0⟩ (r :: rs) := by
+      simp only [writeAll, hw]
+    rw [hall] at hstop ⊢
+    have := C19_sequence_partial J L F (r :: rs) ⟨some r.desc, some s.fields, [], 0⟩ s.fields [] hclean
+      (by intro r' hr'; simp [hr, hdesc r' hr']) hstop
+    simpa using this
+
 /-- Reader conversion: a datetime delivered by the Avro library passes through unchanged whatever its instant
     (before 1970, near the epoch, far future); a raw number in a datetime field is taken for microseconds only above
     the extracted threshold. -/
